@@ -7,4 +7,7 @@ import c12_core
 
 
 def run(ctx, replay):
+    if replay:
+        c12_core.replay_core(ctx, replay)
+        return
     c12_core.run_core(ctx)
